@@ -142,6 +142,20 @@ theorem ContsSig.closureOk {w w' : World} (h : ContsSig w w') {D : SlabID → Di
     obtain ⟨m0, rfl⟩ := Cont.sig_kind_map hs
     rw [h.T]; exact c2 m0 k hq hk
 
+theorem ContsSig.idxLive {w w' : World} (h : ContsSig w w') (hl : IdxLive w)
+    (hidx : ∀ p x (i : Nat), AList.find? (w'.idxOf p) x = some i → AList.find? (w.idxOf p) x = some i) :
+    IdxLive w' := by
+  intro p x i hi
+  obtain ⟨h1, a, ha⟩ := hl p x i (hidx p x i hi)
+  obtain ⟨c', hc', hs⟩ := h.get ha
+  obtain ⟨a', rfl⟩ := Cont.sig_kind_arr hs
+  exact ⟨by rw [h.isSome]; exact h1, a', hc'⟩
+
+theorem ContsSig.hinfoLive {w w' : World} (h : ContsSig w w') (hl : HinfoLive w)
+    (hh : ∀ x hi, AList.find? w'.hinfo x = some hi → AList.find? w.hinfo x = some hi) : HinfoLive w' := by
+  intro x hi hx
+  rw [h.isSome]; exact hl x hi (hh x hi hx)
+
 /-! ### `Anc` and ranks -/
 
 theorem CRank.lt_of_anc {w : World} {rank : SlabID → Nat} (hr : CRank rank w) {a z : SlabID}
